@@ -133,6 +133,8 @@ def correspondence(ctx):
         if a != b:
             r.fail('parse-mismatch', 'model and implementation differ on a corpus document', input=d,
                    impl=a[:300], model=b[:300])
+    import lib_gram
+    lib_gram.run(ctx, r, ctx.pick(60000, 600000), ctx.pick(3, 4))   # documents of the proved grammar
     r.rule = ('`parse` (tolerance 0, with the document\'s skip_envs) compared textually, positions and serialisation '
               'included, on ' + RULE_DOCS % ctx.pick(6, 12) + '; plus the repository corpus')
     return r
